@@ -68,6 +68,40 @@ def payloads(tier):
             add("arg-is-method-call", rp + ["def pf(x: %s) -> Int => 1" % P], ["def rmo := RM()", "def pr: Int := pf(rmo.m())"], ok, tg, 1)
             add("self-method-return", ["class RS", "    def inner(self) -> %s => %s" % (T, v), "    def outer(self) -> %s => self.inner()" % P], ["def rso := RS()", "rso.outer()"], ok, tg,
                 ("prelude", len(CLASSES) + 2))
+    # the value is the tail of a compound construct (handle / if / match, in block form and nested): every slot that can be the
+    # value of the construct is held to the declared type - the handled expression as much as the arms
+    car_pre = ["class HE(msg: Str): Exception(msg)"]
+    car_types = TYPES if tier != "quick" else ["Int", "Float", "Str", "A", "B"]
+    for P in car_types:
+        for T in car_types:
+            ok = conforms(T, P)
+            v, g = VAL[T], VAL[P]
+            hp = car_pre + ["def hr(x: %s) -> %s raise [HE] => x" % (P, P)]
+            carriers = {
+                "handle-try": ["%s handle" % v, "    he: HE => %s" % g],
+                "handle-arm": ["hr(%s) handle" % g, "    he: HE => %s" % v],
+                "handle-arm-block": ["hr(%s) handle" % g, "    he: HE =>", '        print("x")', "        %s" % v],
+                "if-then-block": ["if hc then", '    print("x")', "    %s" % v, "else", "    %s" % g],
+                "if-else-block": ["if hc then", "    %s" % g, "else", '    print("x")', "    %s" % v],
+                "match-arm": ["match hn", "    1 => %s" % g, "    _ => %s" % v],
+                "match-arm-block": ["match hn", "    1 => %s" % g, "    _ =>", '        print("x")', "        %s" % v],
+                "else-handle-try": ["if hc then", "    %s" % g, "else", "    %s handle" % v, "        he: HE => %s" % g],
+                "both-handle-else-try": ["if hc then", "    hr(%s) handle" % g, "        he: HE => %s" % g, "else", "    %s handle" % v, "        he: HE => %s" % g],
+                "both-handle-then-try": ["if hc then", "    %s handle" % v, "        he: HE => %s" % g, "else", "    hr(%s) handle" % g, "        he: HE => %s" % g],
+                "both-handle-else-arm": ["if hc then", "    hr(%s) handle" % g, "        he: HE => %s" % g, "else", "    hr(%s) handle" % g, "        he: HE => %s" % v],
+                "arm-handle-try": ["match hn", "    1 => %s" % g, "    _ =>", "        %s handle" % v, "            he: HE => %s" % g],
+            }
+            for cname, car in carriers.items():
+                tg = ["param:" + P, "arg:" + T, "carrier:" + cname]
+                fl = [i for i, l in enumerate(car) if l.strip().startswith(v) or l.strip().endswith("=> " + v)]
+                fl = fl[-1] if cname.endswith(("else-try", "else-arm", "arm-block", "else-block", "match-arm", "arm-handle-try", "else-handle-try")) else fl[0]
+                add("carrier-init", hp, ["def hc := True", "def hn := 1", "def pv: %s := %s" % (P, car[0])] + car[1:], ok, tg, 2 + fl)
+                add("carrier-implicit-last", hp + ["def cl(hc: Bool, hn: Int) -> %s =>" % P] + ctxgen.indent(car), ["cl(True, 1)"], ok, tg, ("prelude", len(CLASSES) + len(hp) + 1 + fl))
+                add("carrier-implicit-last-after-stmt", hp + ["def cl(hc: Bool, hn: Int) -> %s =>" % P, '    print("b")'] + ctxgen.indent(car), ["cl(True, 1)"], ok, tg,
+                    ("prelude", len(CLASSES) + len(hp) + 2 + fl))
+                if cname in ("handle-try", "handle-arm", "handle-arm-block"):
+                    continue  # 'x := e handle' is not in the grammar: a reassignment cannot be guarded directly
+                add("carrier-reassign", hp, ["def hc := True", "def hn := 1", "def pm: %s := %s" % (P, g), "pm := %s" % car[0]] + car[1:], ok, tg, 3 + fl)
     # sibling branches that each define a same-named local of an unrelated type (shadowing offsets per branch)
     sib_pre = ["class SE1(msg: Str): Exception(msg)", "class SE2(msg: Str): Exception(msg)", "def sr(n: Int) -> Int raise [SE1, SE2] =>", "    if n = 1 then", '        raise SE1("a")',
                "    if n = 2 then", '        raise SE2("b")', "    n", "def takes_int(x: Int) -> Int => x", "def takes_str(x: Str) -> Str => x"]
